@@ -69,7 +69,7 @@ def _gen(rng, fresh):
         w["case_spelling"] = rng.choice(["dict", "tuple"])
     n = gens.n_settings(w["combos"], w["cases"])
     c = {"w": w, "batchsize": None, "num_batches": None, "where": rng.choice(["ctor", "sow"]),
-         "shuffle": rng.choice([False, False, True, rng.randint(2, 9999)]), "shuffle_where": rng.choice(["ctor", "sow"]),
+         "shuffle": gens.gen_shuffle(rng), "shuffle_where": rng.choice(["ctor", "sow"]),
          "fresh": fresh, "by_value": fresh or rng.random() < 0.3, "pseed": rng.randint(0, 10 ** 9),
          "spelling": rng.choice(["dict", "tuple", "list"]), "reload_before_reap": rng.random() < 0.6,
          # the function is NOT written to disk: every grow is handed the function explicitly
@@ -125,7 +125,7 @@ def run_case(ctx, case):
         target["num_batches"] = case["num_batches"]
     shuffle_at_sow, shuffle_attr = None, None
     uses_sow_cases = w["mode"] != "grid" and w.get("via") != "sow_combos"
-    if case["shuffle"]:
+    if case["shuffle"] is not False:
         if case["shuffle_where"] == "ctor":
             ctor["shuffle"] = case["shuffle"]
         elif uses_sow_cases:
